@@ -310,8 +310,8 @@ def resource_cases(tier, rng):
         for t in ("List", "CharList", "ByteList", "Symbol"):
             for imp in "SB":
                 cases.append("O %s A ApplyType %s t%s" % (imp, v, t))
-    progs = ["(0 .. 2147483646) ~# (,)", "((0 - 2147483647) .. 2147483646) ~# (1,)", "(0.0 .. 1e19) ~# (,)", "((1 2 3) ~ (0 .. 2147483646)) ~# \"\"",
-             "(0.0 .. 1e308) ~# (,)", "((1 2 3) ~ (0 .. 2147483646)) ~# (,)", "(0 .. 2147483646) ~# \"\""]
+    progs = ["(0 .. 2147483646) ~# (,)", "((0 - 2147483647) .. 2147483646) ~# (1,)", "(0.0 .. 1e19) ~# (,)", "((1 2 3) <~ (0 .. 2147483646)) ~# \"\"",
+             "(0.0 .. 1e308) ~# (,)", "((1 2 3) <~ (0 .. 2147483646)) ~# (,)", "(0 .. 2147483646) ~# \"\""]
     for p in progs:
         src = ",".join("%x" % ord(c) for c in p)
         for imp in "SB":
@@ -387,6 +387,23 @@ def x_cases(tier, rng):
                 za, zb = val_of(a), val_of(b)
                 if za is None or zb is None or zb - za < 3000:
                     cases.append("X cast %s R(%s,%s) List" % (imp, a, b))
+    for imp in "SB":
+        for n in list(range(0, 7)) + [4294967296]:
+            for kk in range(0, 7):
+                cases.append("X mklist %s %d %d" % (imp, n, kk))
+        for kk in range(0, 6):
+            cases.append("X eqregs %s %d" % (imp, kk))
+    for n in range(0, 13):
+        for stride in range(1, 6):
+            cases.append("X endlist S %d %d" % (n, stride))
+    for n in list(range(0, 18)) + [33, 64, 100]:
+        for j in range(0, n + 3, 1 if n < 18 else 7):
+            cases.append("X bsearch B %d %d" % (n, j))
+    ints = [i(0), i(1), i(2), i(3), i(4), i(5), i(-1), i(-2), i(7), i(I32_MAX), i(I32_MIN), i(I32_MAX - 1), i(I32_MIN + 1)]
+    for n in (2, 3, 5):
+        for a in ints:
+            for b in ints:
+                cases.append("X cwin S %d %s %s" % (n, a, b))
     return cases
 
 
@@ -436,20 +453,20 @@ def gen_expr(rng, depth):
     if r < 0.93:
         return "(%s !> %s)" % (gen_expr(rng, depth - 1), gen_expr(rng, depth - 1))
     if r < 0.96:
-        return "({%s} ~ %s)" % (gen_expr(rng, depth - 1), gen_expr(rng, depth - 1))
+        return "({%s} %s %s)" % (gen_expr(rng, depth - 1), rng.choice(["~", "<~", "<~"]), gen_expr(rng, depth - 1))
     if r < 0.98:
         return "(%s [%s])" % (gen_expr(rng, depth - 1), gen_expr(rng, depth - 1))
     return "(%s ~# %s)" % (gen_expr(rng, depth - 1), rng.choice(LIT_TEXT + LIT_SYM + ["(,)", "1", "#1", "#(,)", "#\"\"", "#''", "#:a", "(1..2)", "#(1..2)"]))
 
 
 CAST_TARGETS = ['""', "''", ":a", "1", "(1,)", "#\"\"", "#''", "#:a", "#1", "#(1,)", "#(1..2)", "#$?", "#$!", "#()", "#(1 = 2)", "#(1 <> 2)",
-                "#:a.b", "#((1 2 3) ~ (0..1))", "#{1}", "#\"a\".0", "#'a'.0", "#(#1)"]
+                "#:a.b", "#((1 2 3) <~ (0..1))", "#{1}", "#\"a\".0", "#'a'.0", "#(#1)"]
 CAST_SOURCES = LIT_NUM + LIT_TEXT + LIT_SYM + LIT_MISC + NEG + [
     "(1..3)", "(3..1)", "(1 >..< 5)", "(10 >..< 3)", "(1 >.. 3)", "(1 ..< 3)", "(0.5..2.5)", "(1 <> 2)", "((1 2) <> (3 4))", "(\"ab\" <> \"cd\")",
-    "((1 2 3) ~ (0..1))", "((1 2 3) ~ (2..0))", "((1 2 3) ~ (0..100))", "(\"abcd\" ~ (1..2))", "(\"héllo\" ~ (1..3))", "('abcd' ~ (0..2))",
-    "((1 <> 2 <> 3) ~ (0..1))", "(((1 2 3) ~ (0..1)) ~ (0..0))", "(:a.b ~ (0..1))", "(1 = 2)", "(:a = 1)", "{1}", "({$} ~ 1)", "\"a\".0", "'a'.0", "#1",
-    "((0 - 5) .. 5)", "(2147483645 .. 2147483646)", "((1 2 3) ~ ((0-1)..1))", "((1 2 3) ~ (0.5..1.5))", "(\"abc\" ~ (5..9))",
-    "(1..(0-3))", "((1, 2, 3) ~ (1 >..< 1))", "((1 2 3) ~ (1..3))", "(\"\" ~ (0..0))", "(('' <> '') ~ (0..1))"]
+    "((1 2 3) <~ (0..1))", "((1 2 3) <~ (2..0))", "((1 2 3) <~ (0..100))", "(\"abcd\" <~ (1..2))", "(\"héllo\" <~ (1..3))", "('abcd' <~ (0..2))",
+    "((1 <> 2 <> 3) <~ (0..1))", "(((1 2 3) <~ (0..1)) <~ (0..0))", "(:a.b <~ (0..1))", "(1 = 2)", "(:a = 1)", "{1}", "({$} <~ 1)", "\"a\".0", "'a'.0", "#1",
+    "((0 - 5) .. 5)", "(2147483645 .. 2147483646)", "((1 2 3) <~ ((0-1)..1))", "((1 2 3) <~ (0.5..1.5))", "(\"abc\" <~ (5..9))",
+    "(1..(0-3))", "((1, 2, 3) <~ (1 >..< 1))", "((1 2 3) <~ (1..3))", "(\"\" <~ (0..0))", "(('' <> '') <~ (0..1))"]
 ACCESS_INDEXES = ["0", "1", "2", "3", "5", "(0-1)", "0.5", "1.5", "2147483647", "(0 - 2147483647 - 1)", "1e308", "(0 - 0.5)", ":a", ":zz", "\"a\"", "()", "(0..1)",
                   "4294967296.0", "(1e308 * 10)", "2.0"]
 
@@ -464,6 +481,7 @@ def program_cases(tier, rng):
     for src in CAST_SOURCES:
         for ix in ACCESS_INDEXES:
             progs.append("%s . %s" % (src, ix) if not ix.startswith(":") else "%s.%s" % (src, ix[1:]))
+            progs.append("%s <~ %s" % (src, ix))
             progs.append("%s ~ %s" % (src, ix))
         for suf in SUF_OPS:
             progs.append("%s%s" % (src, suf))
@@ -481,11 +499,16 @@ def program_cases(tier, rng):
             progs.append("%s%s" % (op, a))
     # loops / frames / side effects with boundary values
     progs += [
-        "{$ < 5 ?> ^~ $ + 1 |> $} ~ 0", "{$ ?> ^~ $!} ~ $?", "{1 + ($ < 3 ?> ^~ $ + 1)} <~ 0", "{$ + 1} ~ 2147483647", "{$ << 32} ~ 1", "{$~~} ~ {5}",
-        "{ $ . 0 } ~ (1 2 3)", "{ $ . 5 } ~ (1 2 3)", "{ $._ } ~ (1..2147483647)", "{ $.| } ~ (0 .. 2147483646)", "{ $.| } ~ ((0 - 2147483647 - 1) .. 2147483647)",
-        "1 [2 + 3] + 4", "5 ~> {$ * 2}", "{ :a } ~ 1 ~ 2", "({$} ~ 1) ~ 2 ~ 3", "{ext} ~ 1", "ext ~ 5", "ext ~~", "lst . 1", "lst ~ (0..1)", "txt . 1", "txt ~# (,)",
-        "(lst ~ (0..1)) ~# (,)", "zzz ~ 1", "(1 2 3) ~ :a.b", "(:a = (:b = 1,),) ~ :a.b", "(:a = (:b = 1,),) ~ :a.0", "(:a = (:b = 1,),) ~ :a.(0-1)",
-        "5 ;; 6", "1\n\n2", "$ ?> 1 |> 2", "$! ?> 1 |> $! ?> 2", "5 ?> ( )", "( )", "{^~ $} ~ 1",
+        '{ ($ . 0) < 600 ?> ^~ ((($ . 0) + 1), (($ . 1),)) |> (($ . 1) ~# "") } <~ (0, (1,))',
+        '{ ($ . 0) < 600 ?> ^~ ((($ . 0) + 1), (($ . 1) <> 1)) |> (($ . 1) ~# "") } <~ (0, (1 <> 1))',
+        '{ ($ . 0) < 600 ?> ^~ ((($ . 0) + 1), (:k = ($ . 1))) |> (($ . 1) ~# :a) } <~ (0, (1,))',
+        '{ ($ . 0) < 600 ?> ^~ ((($ . 0) + 1), (($ . 1),)) |> (($ . 1) == ($ . 1)) } <~ (0, (1,))',
+        "{ ($ . 0) < 600 ?> ^~ ((($ . 0) + 1), (($ . 1),)) |> (($ . 1) ~# '') } <~ (0, (1,))",
+        "{$ < 5 ?> ^~ $ + 1 |> $} <~ 0", "{$ ?> ^~ $!} <~ $?", "{1 + ($ < 3 ?> ^~ $ + 1)} <~ 0", "{$ + 1} <~ 2147483647", "{$ << 32} <~ 1", "{$~~} <~ {5}",
+        "{ $ . 0 } <~ (1 2 3)", "{ $ . 5 } <~ (1 2 3)", "{ $._ } <~ (1..2147483647)", "{ $.| } <~ (0 .. 2147483646)", "{ $.| } <~ ((0 - 2147483647 - 1) .. 2147483647)",
+        "1 [2 + 3] + 4", "5 ~> {$ * 2}", "{ :a } <~ 1 ~ 2", "({$} <~ 1) ~ 2 ~ 3", "{ext} <~ 1", "ext <~ 5", "ext ~~", "lst . 1", "lst <~ (0..1)", "txt . 1", "txt ~# (,)",
+        "(lst <~ (0..1)) ~# (,)", "zzz <~ 1", "(1 2 3) <~ :a.b", "(:a = (:b = 1,),) <~ :a.b", "(:a = (:b = 1,),) <~ :a.0", "(:a = (:b = 1,),) <~ :a.(0-1)",
+        "5 ;; 6", "1\n\n2", "$ ?> 1 |> 2", "$! ?> 1 |> $! ?> 2", "5 ?> ( )", "( )", "{^~ $} <~ 1",
     ]
     # the repository's own script corpus
     import glob
@@ -503,8 +526,9 @@ def program_cases(tier, rng):
     cases = []
     for n, p in enumerate(progs):
         src = ",".join("%x" % ord(c) for c in p) or "-"
+        steps = 400000 if "600 ?>" in p else 2000
         for imp in "SB":
-            cases.append("P %s A 2000 %s" % (imp, src))
+            cases.append("P %s A %d %s" % (imp, steps, src))
         if n % 3 == 0:
             for imp in "SB":
                 for h in "DY":
